@@ -11,6 +11,7 @@ import (
 	"net"
 	"strings"
 	"sync"
+	"time"
 )
 
 type vfStubPub struct {
@@ -30,6 +31,7 @@ type vfStubNsqd struct {
 	next   []string // scripted answers for the coming PUBs (default ok)
 	conns  []net.Conn
 	notify chan struct{}
+	delay  time.Duration // slow destination: wait this long before a PUB is recorded and answered
 }
 
 func vfNewStubNsqd() *vfStubNsqd {
@@ -164,6 +166,9 @@ func (s *vfStubNsqd) serve(c net.Conn) {
 			body := make([]byte, sz)
 			if _, err := io.ReadFull(r, body); err != nil {
 				return
+			}
+			if s.delay > 0 {
+				time.Sleep(s.delay)
 			}
 			s.mu.Lock()
 			verb := "ok"
